@@ -404,7 +404,34 @@ func genSpecForX(p *packages.Package, pc *PkgContracts, executable bool) (string
 		}
 		anchor := findAnchorStmt(p.Fset, fd, ab.Anchor)
 		if anchor == nil {
-			return nil
+			// anchor text not found (the code changed): make every local of the function visible so
+			// that the clause still type-checks; the verifier then reports the missing anchor
+			used := map[string]bool{}
+			toks, _ := scanSpec(ab.Clause.Text)
+			for _, tk := range toks {
+				if tk.tok == token.IDENT {
+					used[tk.lit] = true
+				}
+			}
+			seen := map[string]bool{}
+			for _, prm := range fs.allParams() {
+				seen[prm.Name] = true
+			}
+			var out []localVar
+			var ids []*ast.Ident
+			for id := range p.TypesInfo.Defs {
+				ids = append(ids, id)
+			}
+			sort.Slice(ids, func(i, j int) bool { return ids[i].Pos() < ids[j].Pos() })
+			for _, id := range ids {
+				v, ok := p.TypesInfo.Defs[id].(*types.Var)
+				if !ok || v.IsField() || id.Pos() < fd.Pos() || id.Pos() > fd.End() || !used[v.Name()] || seen[v.Name()] {
+					continue
+				}
+				seen[v.Name()] = true
+				out = append(out, localVar{v.Name(), types.TypeString(v.Type(), qual)})
+			}
+			return out
 		}
 		used := map[string]bool{}
 		toks, _ := scanSpec(ab.Clause.Text)
